@@ -6,6 +6,7 @@ import (
 	"sort"
 	"strings"
 
+	"github.com/cosmos/cosmos-proto/anyutil"
 	"github.com/cosmos/cosmos-proto/internal/verifsim/simhook"
 	"github.com/cosmos/cosmos-proto/internal/verifsim/simrun"
 	"github.com/cosmos/cosmos-proto/internal/verifsim/simval"
@@ -47,11 +48,30 @@ const (
 	opSharedMethodsSize    // Size through ONE protoiface.Methods value shared by all tasks
 	opSharedMethodsMarshal // Marshal through that same shared Methods value
 	opPlumbing             // Type / Descriptor / New / Zero / Interface / IsValid / GetUnknown of the reflection object
+	opAnyutil              // anyutil.New / anyutil.MarshalFrom of the message and of a message of another type
 	numOps
 )
 
 var opNames = []string{"Size", "Marshal", "MarshalDeterministic", "MarshalAppend", "Methods.Size", "Methods.Marshal", "Has/Get/views", "Range", "WhichOneof",
-	"Equal(equal peer)", "Equal(unequal peer)", "Clone(from)", "Merge(from)", "protojson.Marshal", "prototext.Marshal", "String", "getters", "MessageOf(struct reflection)", "anypb.New", "map/list view Range/Has/Get", "Has/Get on every field incl. unpopulated", "shared Methods.Size", "shared Methods.Marshal", "Type/Descriptor/New/Zero/Interface/IsValid/GetUnknown"}
+	"Equal(equal peer)", "Equal(unequal peer)", "Clone(from)", "Merge(from)", "protojson.Marshal", "prototext.Marshal", "String", "getters", "MessageOf(struct reflection)", "anypb.New", "map/list view Range/Has/Get", "Has/Get on every field incl. unpopulated", "shared Methods.Size", "shared Methods.Marshal", "Type/Descriptor/New/Zero/Interface/IsValid/GetUnknown", "anyutil.New/MarshalFrom"}
+
+// orderFree: the result of these operations is a function of the message
+// alone, so the sequential reader they are compared with may meet any map
+// iteration order (it is given another one than the task had). Marshal in the
+// default mode is the exception: its bytes may follow the iteration order
+// (anypb.New and anyutil.New marshal in the default mode).
+func orderFree(kind int) bool {
+	return kind != opMarshal && kind != opMarshalAppend && kind != opAny && kind != opAnyutil
+}
+
+// scribble overwrites bytes an operation handed to its caller. The caller owns
+// them: if they were shared with the message, another reader sees the write.
+func scribble(b []byte) {
+	b = b[:cap(b)]
+	for i := range b {
+		b[i] ^= 0xA5
+	}
+}
 
 type opInst struct {
 	Kind int
@@ -82,13 +102,19 @@ func doOp(m proto.Message, op opInst, env *opEnv) (res string) {
 		return fmt.Sprint(proto.Size(m))
 	case opMarshal:
 		b, err := proto.Marshal(m)
-		return fmt.Sprintf("%x %v", b, err)
+		res = fmt.Sprintf("%x %v", b, err)
+		scribble(b)
+		return res
 	case opMarshalDet:
 		b, err := proto.MarshalOptions{Deterministic: true}.Marshal(m)
-		return fmt.Sprintf("%x %v", b, err)
+		res = fmt.Sprintf("%x %v", b, err)
+		scribble(b)
+		return res
 	case opMarshalAppend:
 		b, err := proto.MarshalOptions{}.MarshalAppend(make([]byte, 3, 64), m)
-		return fmt.Sprintf("%x %v", b, err)
+		res = fmt.Sprintf("%x %v", b, err)
+		scribble(b)
+		return res
 	case opMethodsSize:
 		meth := m.ProtoReflect().ProtoMethods()
 		if meth == nil || meth.Size == nil {
@@ -101,7 +127,9 @@ func doOp(m proto.Message, op opInst, env *opEnv) (res string) {
 			return "no fast path"
 		}
 		out, err := meth.Marshal(protoiface.MarshalInput{Message: m.ProtoReflect(), Flags: protoiface.MarshalDeterministic})
-		return fmt.Sprintf("%x %v", out.Buf, err)
+		res = fmt.Sprintf("%x %v", out.Buf, err)
+		scribble(out.Buf)
+		return res
 	case opCanonReflect:
 		return simval.Canon(m.ProtoReflect())
 	case opRange:
@@ -176,7 +204,22 @@ func doOp(m proto.Message, op opInst, env *opEnv) (res string) {
 		if err != nil {
 			return "err " + err.Error()
 		}
-		return fmt.Sprintf("%s %x", a.TypeUrl, a.Value)
+		res = fmt.Sprintf("%s %x", a.TypeUrl, a.Value)
+		scribble(a.Value)
+		return res
+	case opAnyutil:
+		a, err := anyutil.New(m)
+		if err != nil {
+			return "err " + err.Error()
+		}
+		other := &anypb.Any{}
+		err2 := anyutil.MarshalFrom(other, &durationpb.Duration{Seconds: 7, Nanos: 9}, proto.MarshalOptions{Deterministic: true})
+		b := &anypb.Any{}
+		err3 := anyutil.MarshalFrom(b, m, proto.MarshalOptions{Deterministic: true})
+		res = fmt.Sprintf("%s %x | %s %x %v | %s %x %v", a.TypeUrl, a.Value, other.TypeUrl, other.Value, err2, b.TypeUrl, b.Value, err3)
+		scribble(a.Value)
+		scribble(b.Value)
+		return res
 	case opGetAll:
 		return getAll(m.ProtoReflect(), 0)
 	case opPlumbing:
@@ -196,7 +239,9 @@ func doOp(m proto.Message, op opInst, env *opEnv) (res string) {
 			return "no fast path"
 		}
 		out, err := env.methods.Marshal(protoiface.MarshalInput{Message: m.ProtoReflect(), Flags: protoiface.MarshalDeterministic})
-		return fmt.Sprintf("%x %v", out.Buf, err)
+		res = fmt.Sprintf("%x %v", out.Buf, err)
+		scribble(out.Buf)
+		return res
 	case opMapViews:
 		var parts []string
 		r := m.ProtoReflect()
@@ -420,6 +465,7 @@ func runReaders(c *simrun.Ctx) *simrun.Violation {
 	if useStruct && emptyNotNil && emptyCap > 0 || !useStruct && truncate {
 		st.Add("fault_empty_lists_with_spare_capacity", 1)
 	}
+	odd := false
 	if t.Chance("odd-shape", 1, 6) {
 		// an odd-but-constructible state, the same in every copy: a nil message
 		// map value (what a key-only map entry on the wire leaves behind on the
@@ -428,7 +474,14 @@ func runReaders(c *simrun.Ctx) *simrun.Violation {
 		// so identically for the sequential reader and must not write.
 		kind := t.Draw("odd-kind", 3)
 		if simval.OddShape(kind, t.Draw("odd-sel", 1<<16), shared, private, equalPeer) {
+			odd = true
 			st.Add([]string{"fault_nil_message_map_value", "fault_typed_nil_oneof_wrapper", "fault_oneof_wrapper_with_nil_message"}[kind], 1)
+		}
+	}
+	if md.Fields().Len() == 0 {
+		st.Add("probe_top_level_message_type_without_fields", 1)
+		if len(shared.ProtoReflect().GetUnknown()) > 0 {
+			st.Add("probe_field_less_message_holding_unknown_fields", 1)
 		}
 	}
 	env := &opEnv{equalPeer: equalPeer, unequalPeer: unequalPeer}
@@ -537,6 +590,7 @@ func runReaders(c *simrun.Ctx) *simrun.Violation {
 	st.Add("simulations", 1)
 	st.Add("scheduler_steps", int64(sched.Steps))
 	st.Add("fault_context_switches", int64(sched.Switches))
+	st.Add("probe_task_blocked_in_a_real_lock_and_holder_released_it", int64(sched.Blocked))
 	st.Add("yield_points_passed", int64(sched.Yields))
 	st.Max("max_steps_in_a_run", int64(sched.Steps))
 	if sched.Switches >= 4 {
@@ -554,6 +608,15 @@ func runReaders(c *simrun.Ctx) *simrun.Violation {
 	for i, rt := range tasks {
 		expected[i] = make([]string, len(rt.prog))
 		for j, op := range rt.prog {
+			// (on an odd shape a read may panic or stop at the first difference
+			// it meets, so what it returns can follow the order; only the Size
+			// family, which visits everything, stays comparable across orders)
+			if orderFree(op.Kind) && (!odd || op.Kind == opSize || op.Kind == opMethodsSize || op.Kind == opSharedMethodsSize) {
+				// any sequential reader will do: this one meets another map
+				// iteration order than the task did
+				op.Ord = simhook.Mix(op.Ord, 0x5e9)
+				op.Mode = (op.Mode + 1 + int(op.Ord%uint64(simhook.OrdModes-1))) % simhook.OrdModes
+			}
 			expected[i][j] = doOp(private, op, &envSeq)
 			st.Add("op_"+opNames[op.Kind], 1)
 		}
